@@ -648,6 +648,13 @@ class Lib(object):
             st.trace.append((kind, to_val(args[0]), to_val(args[1]), res.z if res is not None else None))
             yield st, res
             return
+        if f in (reversed, sorted) and len(args) == 1 and isinstance(args[0], SVal) and not kwargs:
+            # another iterable made from the value: an uninterpreted function of it (nothing is known about its order)
+            self.used.add("reversed(x) / sorted(x) of a dynamic value: an uninterpreted iterable (or TypeError)")
+            bad = st.fork().label("L%d:%s() raises" % (ln, f.__name__))
+            yield bad, Raised(TypeError, ExcObj(TypeError))
+            yield st, SVal(self.spec.uf["seq_of"](z3.IntVal(2 if f is reversed else 3), args[0].z))
+            return
         if f is bytes and len(args) == 1 and isinstance(args[0], SVal) and not kwargs:
             yield st, engine.narrow(st, args[0], "bytes", node, "argument of bytes()")
             return
@@ -659,6 +666,15 @@ class Lib(object):
                 # a builtin applied to an arbitrary object runs that object's code: one ghost Op event, any outcome
                 self.used.add("%s(obj) on a dynamic object = one ghost Op event, any result, any exception" % opname)
                 rest = SVL(to_vl(args[1:]))
+                if fn is str:
+                    # str(x) of a plain value: its text rendering, no user code (str(text) is the text itself); the
+                    # operation is still recorded
+                    pl = st.fork().assume(z3.Not(Val.is_VRef(args[0].z)))
+                    r = self.spec.uf["str_of"](args[0].z)
+                    pl.assume(z3.Implies(Val.is_VStr(args[0].z), r == Val.vs(args[0].z)))
+                    pl.trace.append(("Op", opname, args[0].z, rest.z, Val.VStr(r)))
+                    yield pl, SStr(r)
+                    st = st.fork().assume(Val.is_VRef(args[0].z))
                 for cls in [AnyException, AnyBaseException] + list(engine.exc_universe()):
                     b = st.fork().label("L%d:%s raises %s" % (ln, opname, cls.__name__))
                     b.trace.append(("Op", opname, args[0].z, rest.z, "raise"))
